@@ -174,10 +174,14 @@ Print Assumptions C19_config_fn_components.
    holds on this query", under the oracle's precondition pre_q (layout hypothesis of the property,
    validated per input).  The observed outcome must be in the property's vocabulary (a project / a
    job / LookupError); any other exception makes holds_q false by itself and is reported by the
-   run-time evaluation of the oracle. *)
+   run-time evaluation of the oracle.  holds_q = holds_core (the discovery clauses: which project /
+   job / LookupError, holder of the job, init_project idempotent) && change_ok ("nothing is reset":
+   the tree is byte for byte as before except a re-created missing workspace directory; an exception
+   touches nothing).  The three theorems below are about holds_core; C19_model_holds_change_partial
+   adds change_ok. *)
 Theorem C19_model_holds_get_project : forall base tree q s,
   q_kind q = QProject s -> pre_q base tree q = true -> agree_q base tree q = true ->
-  outcome_in_vocabulary (q_kind q) (q_res q) -> holds_q base tree q = true.
+  outcome_in_vocabulary (q_kind q) (q_res q) -> holds_core base tree q = true.
 Proof. exact model_holds_get_project. Qed.
 Print Assumptions C19_model_holds_get_project.
 
@@ -186,7 +190,7 @@ Print Assumptions C19_model_holds_get_project.
    LookupError only when the path does not exist / has no id-like component / has no project *)
 Theorem C19_model_holds_get_job : forall base tree q,
   q_kind q = QJob -> pre_q base tree q = true -> agree_q base tree q = true ->
-  job_vocabulary (q_res q) -> holds_q base tree q = true.
+  job_vocabulary (q_res q) -> holds_core base tree q = true.
 Proof. exact model_holds_job. Qed.
 Print Assumptions C19_model_holds_get_job.
 
@@ -197,9 +201,19 @@ Print Assumptions C19_model_holds_get_job.
 Theorem C19_model_holds_init_partial : forall base tree q,
   q_kind q = QInit -> pre_q base tree q = true -> agree_q base tree q = true ->
   outcome_in_vocabulary (q_kind q) (q_res q) -> q_changed q = false ->
-  holds_q base tree q = true.
+  holds_core base tree q = true.
 Proof. exact model_holds_init. Qed.
 Print Assumptions C19_model_holds_init_partial.
+
+(* the whole oracle, clause change_ok included.  FULL statement (not proved): the same without the
+   hypothesis q_changed q = false, i.e. also when the call re-created the missing workspace
+   directory of the project it returns (then change_ok compares the observed tree with "tree before
+   + that empty directory"; at model level this is C19_project_open_effect and
+   C19_errors_touch_nothing; on the implementation it is evaluated on every observation). *)
+Theorem C19_model_holds_change_partial : forall base tree q,
+  holds_core base tree q = true -> q_changed q = false -> holds_q base tree q = true.
+Proof. exact model_holds_full. Qed.
+Print Assumptions C19_model_holds_change_partial.
 
 (* ---- non-vacuity: a concrete tree satisfying the hypotheses -------------------------------
    /p is a project, /p/workspace/<id>/inner is a project nested in a job directory with its own
